@@ -325,6 +325,12 @@ func (c *collection) createIndex(
 	index, err := c.addNewIndex(ctx, desc)
 	if err != nil {
 		c.def.Version.Indexes = c.def.Version.Indexes[:len(c.def.Version.Indexes)-1]
+		// The description stored above must not outlive the failed call: inside a transaction
+		// owned by the caller nothing else would take it back, and a later commit would persist
+		// an index without entries.
+		if saveErr := description.SaveCollection(ctx, c.def.Version); saveErr != nil {
+			err = errors.Join(err, saveErr)
+		}
 		return nil, err
 	}
 
